@@ -168,6 +168,10 @@ impl ProbeCore {
             }
             Hint::Inexact => (0, Some(1_000_000)),
             Hint::Unbounded => (0, None),
+            Hint::Fixed(k) => {
+                let k = k.saturating_sub(self.produced);
+                (k, Some(k))
+            }
         }
     }
 }
